@@ -2,7 +2,7 @@
 import re
 
 from .cfgq import Scope, returned_nodes, bool_taken
-from .exprs import is_arith_op, strip, short_callee, show, leaf_name, walk, Normalizer, origin_desc, Rat, Poly
+from .exprs import ExprBuilder, is_arith_op, strip, short_callee, show, leaf_name, walk, Normalizer, origin_desc, Rat, Poly
 from .facts import AnalysisError
 
 
@@ -38,6 +38,12 @@ class FNormalizer(Normalizer):
             nm = origin_desc(n, -3)
             if nm in self.leafmap:
                 return Rat(Poly.atom(self.leafmap[nm]))
+            if n[0] == "call":
+                # a helper that only names a sub-expression is looked through
+                from . import cfgq
+                inl = cfgq.inline_helper(None, n)
+                if inl is not None:
+                    return self.code(strip(inl))
         return super().code(n)
 
 
@@ -76,14 +82,58 @@ def compare(ctx, rule, key, node, ref_text, leafmap, callmap=None, loc=None, wha
     code = nz.code(node)
     ref = nz.ref(ref_text)
     if nz.unknown:
-        ctx.violation(rule, key, "%s uses quantities the reference formula does not have: %s (code: %s; reference: %s)"
-                      % (what or key, sorted(set(nz.unknown))[:5], str(code)[:200], ref_text), loc)
+        # an unknown *helper call* that merely iterates (no data-dependent case distinction in its body) is lack of understanding, not
+        # evidence: cannot decide.  A new leaf quantity, or a helper that adds a case distinction the reference does not have, is a finding.
+        opaque = opaque_helpers(ctx.prog, node)
+        if opaque and all(not has_case_split for (_, has_case_split) in opaque) and all("(" in u for u in nz.unknown):
+            raise AnalysisError("%s: goes through helper(s) %s that this rule cannot read (loops, no case distinction): cannot decide" % (what or key, [n for n, _ in opaque]))
+        extra = ""
+        if any(cs for _, cs in opaque):
+            extra = "; helper %s adds a case distinction the reference formula does not have" % [n for n, cs in opaque if cs]
+        ctx.violation(rule, key, "%s uses quantities the reference formula does not have: %s%s (code: %s; reference: %s)"
+                      % (what or key, sorted(set(nz.unknown))[:5], extra, str(code)[:200], ref_text), loc)
         return False
     if code.equals(ref):
         ctx.ok(rule, key, "%s = %s" % (what or key, ref_text), loc)
         return True
     ctx.violation(rule, key, "%s normalises to %s, reference %s = %s" % (what or key, str(code)[:300], ref_text, str(ref)[:200]), loc)
     return False
+
+
+def opaque_helpers(prog, node):
+    """workspace functions called inside the expression that could not be inlined: [(short name, has a data-dependent branch)]"""
+    from . import cfgq
+    out = []
+    for x in walk(node):
+        if x[0] != "call":
+            continue
+        ids = prog.callee_index().get(x[1], ())
+        if len(ids) != 1:
+            continue
+        fn = prog.fns[next(iter(ids))]
+        if short_callee(x[1]) in VOCAB or short_callee(x[1]) in Normalizer.REPO_FUNCS:
+            continue
+        inl = cfgq.inline_helper(prog, x)
+        if inl is not None:
+            # looked through; what it expands to may still be unreadable (an iterator pipeline): a selecting adaptor is a case distinction
+            sel = [short_callee(y[1]) for y in walk(inl) if y[0] == "call" and short_callee(y[1]) in ("filter", "filter_map", "take_while", "skip_while", "find", "position")]
+            if any(y[0] == "call" and short_callee(y[1]) in ("sum", "fold", "product", "map", "for_each") for y in walk(inl)):
+                out.append((short_callee(x[1]), bool(sel)))
+            out += opaque_helpers(prog, inl)
+            continue
+        split = False
+        for bf in [fn] + prog.closures_of(fn):
+            for b in range(bf.body.n):
+                t = bf.body.blocks[b]["term"]
+                if t["t"] == "switch" and not bf.body.is_cleanup(b):
+                    d = strip(ExprBuilder(bf.body).operand(t["d"]))
+                    # loop conditions (next() discriminants) and `?` are not case distinctions on data
+                    txt = show(d)
+                    if d[0] == "discr" and ("next(" in txt or "branch(" in txt):
+                        continue
+                    split = True
+        out.append((short_callee(x[1]), split))
+    return out
 
 
 def cond_text(conds):
@@ -93,6 +143,12 @@ def cond_text(conds):
 def _short(d):
     """drop the owner/module prefix of a method descriptor: `radiation::g_glwi(a,b)` -> `g_glwi(a,b)`"""
     return re.sub(r"^(\w+::)+(?=\w+\()", "", d)
+
+
+# Quantities the property statements name and that have a rule of their own: a chain element that is a call of one of these is
+# compared by name; any other straight-line helper is looked through (its returned expression takes its place).
+VOCAB = {"global_ventilation_rate", "g_glwi", "g_glshwi", "u_value", "fround2", "fround3", "area", "area_net", "height_net", "height_gross",
+         "resistance", "get", "get_wallcons", "get_wincons", "get_space", "get_wall", "get_glass", "get_frame", "get_material"}
 
 
 def fallback_chain(prog, sc, node, depth=0):
@@ -142,6 +198,11 @@ def fallback_chain(prog, sc, node, depth=0):
                 rns = returned_nodes(cfn.body)
                 if len(rns) == 1:
                     return ["and_then:" + origin_desc(strip(csc._rw(rns[0][1])))]
+        if nm not in VOCAB:
+            from . import cfgq
+            inl = cfgq.inline_helper(prog, n)
+            if inl is not None:
+                return fallback_chain(prog, sc, inl, depth + 1)
     return [_short(origin_desc(n))]
 
 
